@@ -1,6 +1,8 @@
 """C18 (bounded stand-in): EBLIF files are read faithfully and survive write-then-read."""
-from props import _rtb
-LEVEL = 'exploration'
+import sys
+from props import _rtb, _pv
+from vlib.report import VERIF, REPO
+LEVEL = 'other'
 PID = 'C18'
 SCRIPT = 'b_c18.py'
 SPEC = {'quick': {'designs': 150, 'styles': 3, 'files': {'eblif': 10 ** 7}, 'limit': 20, 'file_limit': 60},
@@ -12,7 +14,20 @@ RULE = ('case = (seeded flat abstract design, style, part) with part in read (te
 
 
 def run(rep, tier, seed):
-    rep.explanation = ('bounded stand-in only: read part: one instance per .subckt/.gate/.names/.latch with the named (or generated '
+    sys.path.insert(0, VERIF); sys.setrecursionlimit(20000)
+    from specs import eblifnames
+    res, shas, deg = eblifnames.run(REPO)
+    rep.functions.update(shas)
+    for fn, why in deg.items(): rep.degrade('EBLIFParser.' + fn, why)
+    for name, status, t, detail, be in res:
+        rep.p(name, status, be if isinstance(be, str) and be else 'z3', t, 'EBLIFParser.get_port_name_and_index', detail if status != 'discharged' else None)
+        if status == 'failed':
+            rep.violation(name, 'obligation %s is no longer discharged (%s)' % (name, str(detail)[:200]),
+                          replay={'kind': 'obligation', 'obligation': name, 'solver_output': str(detail)[:1500]}, nfi=True)
+    if not res and not deg: rep.error('zero obligations generated for C18')
+    rep.explanation = ('helper level (P, string VCs over the real AST): EBLIFParser.get_port_name_and_index splits every token name[d] (d a decimal numeral, '
+                       'name any printable string) into (name, int(d)) and returns (token, 0) for a token that does not end with a bracketed numeral, never raising '
+                       '-- the step on which "every formal=actual pair joined to the named net bit" rests; everything else: bounded stand-in: read part: one instance per .subckt/.gate/.names/.latch with the named (or generated '
                        'logic-gate_N / generic-latch) model, EBLIF.type, .cname/.attr/.param attached, model ports with direction and width, '
                        'black boxes (declared or only used) leaf primitives in hdi_primitives, top, nets as sets of pins after .conn merging and '
                        'by (name, index) where no .conn touches them, Inv + self-containment; round-trip part: same instances (by name), types, '
@@ -21,7 +36,10 @@ def run(rep, tier, seed):
                            'among the instances without .cname; latch type / initial value tokens are not treated as nets; widths of ports of '
                            'never-declared models may be anything between the widest connected and the widest mentioned formal')
     _rtb.run(rep, PID, SCRIPT, tier, seed, SPEC, RULE, gen_bounds=_rtb.FLAT_BOUNDS)
+    rep.trusted = list(getattr(rep, 'trusted', []) or []) + ['pyvc/strvc.py (string VC generator: code-point arrays, CPython slice clamping, positional find / rfind), z3/cvc5']
+    rep.assumptions += ['tokens are non-empty printable ASCII strings; int() of a decimal numeral is an uninterpreted function of its characters; integers mathematical']
 
 
 def replay(path):
+    if _pv.replay_obligation(path): return 0
     return _rtb.replay(path, PID, SCRIPT)
